@@ -134,6 +134,16 @@ func (s *Shard) Write(pts []models.Point) error {
 	return s.Sh.WritePoints(context.Background(), pts)
 }
 
+// SnapshotFailing runs the engine's snapshot path with snapshots disabled on the compactor, so
+// the write of the snapshot fails and the cache retains it for a retry. Returns the error the
+// engine reported (nil when the cache was empty and nothing had to be written).
+func (s *Shard) SnapshotFailing() error {
+	e := s.Eng()
+	e.Compactor.DisableSnapshots()
+	defer e.Compactor.EnableSnapshots()
+	return e.WriteSnapshot()
+}
+
 // Snapshot flushes the cache to a level-1 TSM file through the engine's own path.
 func (s *Shard) Snapshot() error { return s.Eng().WriteSnapshot() }
 
@@ -252,6 +262,17 @@ func (s *Shard) CompactRun(from, n int, mode string, ppb int) bool {
 		e.VerifOptimizeCompactGroup(group, ppb)
 	}
 	return true
+}
+
+// KeyLocations counts the TSM index entries (block locations) of one series field across all
+// live files.
+func (s *Shard) KeyLocations(seriesKey, field string) int {
+	key := tsm1.SeriesFieldKeyBytes(seriesKey, field)
+	n := 0
+	for _, f := range s.Eng().FileStore.Files() {
+		n += len(f.Entries(key))
+	}
+	return n
 }
 
 func (s *Shard) TSMFiles() []string {
